@@ -53,6 +53,7 @@ class Scope:
         self.fns = {f["_path"]: f for f in F.fns_in(struct_prefix)}
         self.exits = None
         self.notes = []
+        self.loop_leaks = []
 
     # ---- helpers
     def is_stack(self, e):
@@ -118,6 +119,7 @@ class Scope:
                 m = n["m"]
                 if m == "push":
                     st.h = add(st.h, frozenset([1]))
+                    self.raw_pushes = getattr(self, "raw_pushes", 0) + 1
                 elif m == "pop":
                     st.h = add(st.h, frozenset([-1]))
                 elif m == "truncate":
@@ -219,11 +221,18 @@ class Scope:
             return st
         base = st.h
         s2 = State(base, st.markers)
+        raw_before = getattr(self, "raw_pushes", 0)
         s3 = self.ev(body, s2)
+        raw_in_body = getattr(self, "raw_pushes", 0) > raw_before
         if s3.h == BOTTOM:
             return st
         if s3.h is TOP or s3.h != base:
             st.h = TOP
+            # what one iteration (one child) leaves on the stack is in scope for the next child.  Declarations are meant
+            # to accumulate (statements of a block, parameters: they go through statement()/push_var); an entry pushed
+            # *directly* for the benefit of one child (`self` for a method field) is not
+            if raw_in_body:
+                self.loop_leaks.append((body, show(s3.h) if s3.h is not TOP else "unknown", show(base) if base is not TOP else "unknown"))
         return st
 
     def merge(self, a, b):
